@@ -257,6 +257,9 @@ def main(chk: lib.Check) -> int:
     lib.tlc_expect_violation("DatasetGen", "DatasetGen_noinit.cfg", "ItemFromThisCfg", tag="dg1")
     lib.tlc_expect_violation("DatasetGen", "DatasetGen_noserialinit.cfg", "ItemFromThisCfg", tag="dg2")
     chk.notes["broken_designs_rejected"] = ["pool initializer does not set the worker global", "serial path initialises the global only when unset"]
+    r = lib.tlc_design("DatasetGen", "DatasetGen_live.cfg", tag="dgl")
+    chk.add_model("DatasetGen/live", r, "progress: a call in progress is never stuck, every step decreases the work left, under fair workers every generate call returns (all schedules)")
+    lib.tlc_expect_violation("DatasetGen", "DatasetGen_unfair.cfg", "EveryCallReturns", tag="dgu")
     # unbounded in the number of generate calls per process: ItemFromThisCfg as an inductive invariant (Apalache, symbolic)
     apa = lib.apalache_inductive("MC_DatasetGen", ["DatasetGen.tla"], broken_sub=("InitSetsGlobal == TRUE", "InitSetsGlobal == FALSE"))
     chk.notes["apalache_inductive_invariant"] = apa
